@@ -159,6 +159,10 @@ func relevant(p string, v *runView, line int, fields []string) bool {
 			if p == "C12" || (p == "C05" && anyFault) || (p == "C04" && anyCancel) || p == "C07" && strings.HasPrefix(f, "tclose") {
 				return true
 			}
+			// a reader that is parked somewhere while the model has it back in Transport.Read: the connection cannot take the next RPC
+			if p == "C06" && strings.HasPrefix(f, "lib.rd_") && strings.Contains(f, `real "blk"`) && strings.Contains(f, `model "tr"`) {
+				return true
+			}
 		case strings.HasPrefix(f, "hmeta"):
 			if p == "C11" {
 				return true
